@@ -974,6 +974,8 @@ Error RALocalAllocator::alloc_instruction(InstNode* node) noexcept {
 
                 RAWorkReg* work_reg = consecutive_regs[i]->work_reg();
                 score += uint32_t(work_reg->home_reg_id() == consecutive_index);
+                // Prefer registers that don't hold a live value (those would have to be spilled).
+                score += uint32_t(!Support::bit_test(live_regs, consecutive_index)) * 2u;
               }
 
               if (score > best_score) {
@@ -991,6 +993,13 @@ Error RALocalAllocator::alloc_instruction(InstNode* node) noexcept {
             uint32_t consecutive_index = best_lead_reg + i;
             RATiedReg* tied_reg = consecutive_regs[i];
             tied_reg->set_out_id(consecutive_index);
+
+            // The chosen register may hold a live value, which is about to be overwritten - spill it first.
+            if (Support::bit_test(live_regs, consecutive_index)) {
+              RAWorkId spill_work_id = _cur_assignment.phys_to_work_id(group, consecutive_index);
+              ASMJIT_PROPAGATE(on_spill_reg(group, work_reg_by_id(spill_work_id), spill_work_id, consecutive_index));
+              live_regs &= ~Support::bit_mask<RegMask>(consecutive_index);
+            }
           }
         }
       }
